@@ -288,12 +288,22 @@ static void case_exact_poly(Rng& rng, uint64_t index)
 			qs.push_back(T.X[j] + rng.u01() * T.h(j));
 		qs.push_back(T.X[j]);
 		qs.push_back(T.X[j + 1]);
+		// (the rounded query must still satisfy the library's own test |x - end| < 1e-2 h, evaluated the same way: on intervals of a few hundred ulp
+		// 0.99% of the interval can round to 1%)
 		if(j == 0)
 			for(double f : {0.99, 0.3})
-				qs.push_back(T.X[0] - f * 1e-2 * T.h(0));
+			{
+				double q = T.X[0] - f * 1e-2 * T.h(0);
+				if(q < T.X[0] && std::fabs(q - T.X[0]) < 1e-2 * T.h(0))
+					qs.push_back(q);
+			}
 		if(j == N - 2)
 			for(double f : {0.99, 0.3})
-				qs.push_back(T.X[N - 1] + f * 1e-2 * T.h(N - 2));
+			{
+				double q = T.X[N - 1] + f * 1e-2 * T.h(N - 2);
+				if(q > T.X[N - 1] && std::fabs(q - T.X[N - 1]) < 1e-2 * T.h(N - 2))
+					qs.push_back(q);
+			}
 	}
 	const char* cl	= parab ? "parabola-reproduced-where-limiter-inactive" : "straight-line-reproduced";
 	const char* cld = parab ? "parabola-slope-reproduced-where-limiter-inactive" : "straight-line-slope-reproduced";
@@ -506,6 +516,12 @@ static void case_grid(Rng& rng, uint64_t index)
 			x = rng.uni(G.X[0], G.X[Nx - 1]);
 		}
 		if(!(x >= G.X[0] || inx) || !(x <= G.X[Nx - 1] || inx) || !(y >= G.Y[0] || !inx) || !(y <= G.Y[Ny - 1] || !inx))
+			continue;
+		// the rounded coordinate must still pass the library's own zone test (|x - end| < 1e-2 h, evaluated the same way): on an edge interval of 1500 ulp
+		// 0.99% can round to 1% (thorough tier, grids_2d#695761 at VERIF_SEED=1: a request of mine outside the zone, rightly refused by the library)
+		if(inx && !(left ? std::fabs(x - G.X[0]) < 1e-2 * (G.X[1] - G.X[0]) : std::fabs(x - G.X[Nx - 1]) < 1e-2 * (G.X[Nx - 1] - G.X[Nx - 2])))
+			continue;
+		if(!inx && !(left ? std::fabs(y - G.Y[0]) < 1e-2 * (G.Y[1] - G.Y[0]) : std::fabs(y - G.Y[Ny - 1]) < 1e-2 * (G.Y[Ny - 1] - G.Y[Ny - 2])))
 			continue;
 		int i = seg_of(G.X, x), j = seg_of(G.Y, y);
 		if(G.X[i] == x || G.X[i + 1] == x || G.Y[j] == y || G.Y[j + 1] == y)
